@@ -6,6 +6,7 @@ with the trace predicted by a 10-line reference model.
 """
 from __future__ import annotations
 
+import copy
 import itertools
 import os
 
@@ -113,7 +114,8 @@ def enumerate_cases(tier, seed):
             cases.append({"fam": "d", "spec": spec, "steps": 1, "ctor": ctor, "debug": False, "mode": "exposure"})
     # family e: histories on one set of objects: run, edit (argument / enabled flag, through four entry points), run ...
     edit_ops = [["arg_attr", 0], ["arg_attr", 1], ["arg_item", 1], ["arg_set", 0], ["arg_set", 1], ["toggle_attr", 0],
-                ["toggle_set", 1], ["replace", 0], ["replace_toggle", 1]]
+                ["toggle_set", 1], ["replace", 0], ["replace_toggle", 1], ["nested_set", 0], ["copy_nested", 0],
+                ["copy_list", 1]]
     depth = 3 if thorough else 2
     for k in range(1, depth + 1):
         for seq in itertools.product(edit_ops, repeat=k):
@@ -121,6 +123,12 @@ def enumerate_cases(tier, seed):
                 cases.append({"fam": "e", "edits": [list(x) for x in seq], "first_run": first_run,
                               "run_between": k > 1 and (len(seq) % 2 == 0), "mode": "history", "ctor": "py",
                               "debug": False, "steps": 2})
+    # family y: YAML documents that use anchors / aliases: a whole model entry listed twice, an argument mapping shared
+    for entry_enabled in (True, False):
+        for shared_args in (True, False):
+            for steps in (1, 2):
+                cases.append({"fam": "y", "entry_enabled": entry_enabled, "shared_args": shared_args, "steps": steps,
+                              "mode": "yaml-alias", "ctor": "yaml", "debug": False})
     # other running modes: subsets of <= 3 (quick: <= 2) groups and the full pipeline
     msub = cfgx.subsets(GROUPS, 1, 3 if thorough else 2) + [GROUPS]
     for mode in ("obs_seq", "obs_dask", "calibration"):
@@ -200,7 +208,7 @@ def run_history(case):
     seed = int(os.environ.get("VERIF_SEED", "0") or 0)
     viol = []
     names = [("photon_collection", "hm0"), ("charge_collection", "hm1")]
-    cfg = {"hm0": {"enabled": True, "args": {"a": 1 + seed % 5, "v": [1, 2]}},
+    cfg = {"hm0": {"enabled": True, "args": {"a": 1 + seed % 5, "v": [1, 2], "d": {"k": 1, "z": [1, 2]}}},
            "hm1": {"enabled": True, "args": {"a": 2, "v": [3]}}}
     det = mk.detector("ccd", 2, 3)
     pipe = mk.pipeline({g: [("vp.probes.rec", n, eval(repr(cfg[n]["args"])), True)] for g, n in names})
@@ -256,6 +264,16 @@ def run_history(case):
         elif op == "replace_toggle":
             holder["proc"] = p.replace({f"pipeline.{g}.{n}.enabled": not cfg[n]["enabled"]})
             cfg[n]["enabled"] = not cfg[n]["enabled"]
+        elif op == "nested_set":                 # a key that addresses a value inside a nested argument
+            p.set(f"pipeline.{g}.{n}.arguments.d.k", val)
+            cfg[n]["args"]["d"]["k"] = val
+        elif op == "copy_nested":                # the change is made on a COPY: this processor keeps its configuration
+            p.replace({f"pipeline.{g}.{n}.arguments.d.k": val})
+            q = copy.deepcopy(p)
+            q.set(f"pipeline.{g}.{n}.arguments.d.k", val + 1)
+        elif op == "copy_list":
+            q = copy.deepcopy(p)
+            getattr(getattr(q.pipeline, g), n).arguments["v"].append(val)
         if case.get("run_between") and i < len(case["edits"]) - 1:
             do_run(i + 1)
     do_run(len(case["edits"]))
@@ -263,11 +281,57 @@ def run_history(case):
             "outcome": {"runs": nruns[0]}}
 
 
+def run_alias(case):
+    """family y: the same YAML mapping object used twice (anchor + alias), as PyYAML loads it"""
+    import pyxel
+    import yaml
+
+    seed = int(os.environ.get("VERIF_SEED", "0") or 0)
+    viol = []
+    entry = {"name": "ya", "func": "vp.probes.rec", "enabled": case["entry_enabled"],
+             "arguments": {"a": 3 + seed % 5, "v": [1, 2]}}
+    args = {"a": 5, "d": {"k": 1}}
+    doc = yaml.safe_load(yaml_text(_pipe_spec([]), case["steps"], seed))
+    doc["pipeline"] = {
+        "charge_collection": [entry,                                    # listed again below: alias of the same mapping
+                              {"name": "yb", "func": "vp.probes.rec", "enabled": True, "arguments": args}],
+        "photon_collection": [entry],
+        "charge_measurement": [{"name": "yc", "func": "vp.probes.rec", "enabled": True,
+                                "arguments": args if case["shared_args"] else dict(args)}],
+    }
+    text = yaml.safe_dump(doc, sort_keys=False)
+    if "&id" not in text or "*id" not in text:
+        raise RuntimeError("harness: the generated YAML contains no anchor/alias")
+    probes.reset()
+    try:
+        cfg = pyxel.loads(text)
+        pyxel.run_mode(cfg.running_mode, cfg.detector, cfg.pipeline)
+    except Exception as e:  # noqa: BLE001
+        viol.append(({"fam": "y", "code": "raised"}, f"YAML with aliases raised {type(e).__name__}: {str(e)[:200]}\n{text}"))
+        return {"viol": viol, "sig": cfgx.sig(case), "nontrivial": True}
+    exp = []
+    for s_ in range(case["steps"]):
+        if case["entry_enabled"]:
+            exp.append(("ya", s_, probes.tagged(entry["arguments"])))      # photon_collection
+            exp.append(("ya", s_, probes.tagged(entry["arguments"])))      # charge_collection
+        exp.append(("yb", s_, probes.tagged(args)))
+        exp.append(("yc", s_, probes.tagged(args)))
+    got = [(t["name"], t["step"], t["kw"]) for t in probes.TRACE]
+    if got != exp:
+        code = "arguments" if [g[:2] for g in got] == [e[:2] for e in exp] else _classify([g[:2] for g in got], [e[:2] for e in exp])
+        viol.append(({"fam": "y", "code": code, "entry_enabled": case["entry_enabled"]},
+                     f"YAML with an aliased model entry / argument mapping: executed {got}, the document says {exp}"))
+    return {"viol": viol, "sig": cfgx.sig([case, [e[:2] for e in exp]]), "nontrivial": True, "n": len(got),
+            "outcome": [g[:2] for g in got][:8]}
+
+
 def run_case(case):
     import pyxel
 
     if case["fam"] == "e":
         return run_history(case)
+    if case["fam"] == "y":
+        return run_alias(case)
     seed = int(os.environ.get("VERIF_SEED", "0") or 0)
     spec, steps, mode = case["spec"], case["steps"], case["mode"]
     viol = []
